@@ -446,6 +446,7 @@ func init() {
 			return res
 		}},
 		{"unicode.IsUpper", func(r rune) uint64 { return b2u(unicode.IsUpper(r)) }, 0, func(x *Exec, r *Term) *Term { return inRange(x, r, 'A', 'Z') }},
+		{"unicode.IsPrint", func(r rune) uint64 { return b2u(unicode.IsPrint(r)) }, 0, func(x *Exec, r *Term) *Term { return inRange(x, r, 0x20, 0x7E) }},
 		{"unicode.IsLower", func(r rune) uint64 { return b2u(unicode.IsLower(r)) }, 0, func(x *Exec, r *Term) *Term { return inRange(x, r, 'a', 'z') }},
 	}
 	for _, f := range fns {
